@@ -276,7 +276,13 @@ class Affine(object):
                 return "P"
             if name in ("np.logical_and", "np.logical_or"):
                 return "B"
-            if name in ("warnings.warn", "builtins.ValueError", ".format", "builtins.str", "builtins.isinstance", "np.allclose", "np.all", "np.any", "np.isfinite"):
+            if name in ("np.allclose", "np.isclose"):
+                # |a - b| <= atol + rtol * |b|: the relative part scales with the absolute position of b
+                rt = dict(t.a[2]).get("rtol", t.a[1][2] if len(t.a[1]) > 2 else None)
+                if tys[:2] == ["P", "P"] and not (rt is not None and rt.op == "const" and rt.a[0] == 0):
+                    self.bad(t, "%s on two absolute times with a relative tolerance (rtol defaults to 1e-5 and scales with the time origin)" % name)
+                return "S" if name == "np.allclose" else "B"
+            if name in ("warnings.warn", "builtins.ValueError", ".format", "builtins.str", "builtins.isinstance", "np.all", "np.any", "np.isfinite"):
                 return "S"
             if name in ("np.exp", "np.log", "np.log2", "np.sqrt", "np.ceil", "np.floor", "np.sum", "np.cumsum", "np.histogram", "np.correlate", "np.dot"):
                 self.bad(t, "absolute time passed to %s" % name)
